@@ -94,7 +94,7 @@ func (g *gen) transfersTable() []wop {
 		{24, g.opTransfer}, {24, g.opNFTTransfer}, {30, g.opMulti},
 		{14, g.lateNetwork}, {3, g.opPayableFlip}, {2, g.opAlias},
 		{2, g.opMint}, {2, g.opCreate}, {1, g.opAddQty}, {3, g.opSysTransfer}, {3, g.opPayableMatrix}, {2, g.opThinSecondLeg}, {2, g.opHandOverFresh}, {3, g.opUnfrozenDrain},
-		{3, g.opRepeatOverdraw},
+		{3, g.opRepeatOverdraw}, {2, g.opFreezeNFTInFlight},
 	}
 }
 
@@ -103,6 +103,7 @@ func (g *gen) runTransfers() {
 	g.standardState()
 	g.metaNodeScenario()
 	g.opRepeatOverdraw()
+	g.opFreezeNFTInFlight()
 	g.loop(g.transfersTable())
 }
 
